@@ -663,6 +663,8 @@ def f_hold(rng, sid):
 
 def f_mutex(rng, sid):
     sc = gen.rand_desc(rng, sid, mutex=1, max_cmds=5)
+    if rng.random() < 0.25:
+        sc.mutex = 2          # the interface struct is handed to cat_init first and gets its functions right afterwards
     n = len(sc.cmds)
     fail_at = rng.randint(1, 120)
     k = 0
